@@ -1752,7 +1752,7 @@ class NodeRequire:
                 try:
                     data = pkgutil.get_data(
                         __name__,
-                        "modules/" + modulefile.lower()
+                        "modules/" + os.path.basename(modulefile).lower()
                     )
                 except FileNotFoundError:
                     data = None
